@@ -11,10 +11,14 @@ Line-protocol driver for C19 (group chain). One op per line:
   restart                            drop memory, run start-up on the store
   crash <k> add …|rmlast|rmto <h>    the op with only k physical writes let through, then restart
   fault <j> add …|rmlast|rmto <h>    the op with its j-th physical write (from 0) failing with an error
+  sqlfault ins|del <id> <mutator>    the op while the sqlite insert / delete for group <id> fails, then restart
   forkput <key>                      Put(key, 0x01) on the store with prefix "groupFork" (shared key space)
   cadd <id> <pre> <parent> <create>  AddGroup that ran concurrently with another one (answer: result only)
   count | last | byheight <i> | byid <x> | iter | sync <x> | syncat <h> <n> | dump | mirror
-  below <x> (getFirstGroupBelowHeight) | top (height())
+  below <x> (getFirstGroupBelowHeight) | top (height()) | avail <h> | availm <h> <miner>
+  switch <h> <id,pre,parent,create[,members]> …   groupChainFork.triggerOnChain from the ancestor at height h
+  addnil | rmnil | addrej <id> <pre> <parent> <create>   AddGroup(nil), remove(nil), AddGroup of a group CheckGroup refuses
+  config duration <n>                  common.GetGroupWorkDuration() of the node (AddGroup's header rewrite)
 
 Answers: see `harness/cmd/c19/main.go` (same formats, produced from the real code).
 -/
@@ -25,6 +29,8 @@ structure DState where
   /-- `none`: nothing booted yet, or the model does not interpret the state (→ `unmodelled`). -/
   boot : Option Boot := none
   genesis : List Group := []
+  /-- `common.GetGroupWorkDuration()` of the node under test (line `config duration <n>`) -/
+  dur : Nat := 0
 
 def gstr (g : Group) : String :=
   toHex g.id ++ ":" ++ toHex g.pre ++ ":" ++ toHex g.parent ++ ":" ++ toString g.height ++ ":" ++ toString g.create
@@ -70,9 +76,36 @@ def parseGroup4 (a b c d : String) : Option Group := do
   let create ← parseNat? d
   pure { id := id, pre := pre, parent := parent, height := 0, create := create }
 
+def parseMembers (s : String) : Option (List Bytes) :=
+  if s == "-" then some [] else (s.splitOn "+").mapM ofHex?
+
+/-- Genesis groups are saved as given: the harness builds them with `DismissHeight = MaxUint64`
+    unless the token carries a fifth field (dismiss) and a sixth (members, `+`-separated). -/
 def parseGenesis (tok : String) : Option Group :=
   match tok.splitOn "," with
+  | [a, b, c, d] => (parseGroup4 a b c d).map (fun g => { g with dismiss := 18446744073709551615 })
+  | [a, b, c, d, e] => do
+    let g ← parseGroup4 a b c d
+    let dm ← parseNat? e
+    pure { g with dismiss := dm }
+  | [a, b, c, d, e, m] => do
+    let g ← parseGroup4 a b c d
+    let dm ← parseNat? e
+    let ms ← parseMembers m
+    pure { g with dismiss := dm, members := ms }
+  | _ => none
+
+/-- A group handed to `AddGroup`: its header is rewritten (`prepare`) when it is accepted. -/
+def parseAdd (dur : Nat) (a b c d : String) : Option Group := (parseGroup4 a b c d).map (prepare dur)
+
+/-- A fork group `id,pre,parent,create[,members]`. -/
+def parseForkGroup (tok : String) : Option Group :=
+  match tok.splitOn "," with
   | [a, b, c, d] => parseGroup4 a b c d
+  | [a, b, c, d, m] => do
+    let g ← parseGroup4 a b c d
+    let ms ← parseMembers m
+    pure { g with members := ms }
   | _ => none
 
 def parseAll {α : Type} (f : String → Option α) : List String → Option (List α)
@@ -90,6 +123,7 @@ def bootStr : Option Boot → String
 def addResStr : AddRes → String
   | .ok => "ok" | .exists_ => "exists" | .noParent => "no-parent" | .preMismatch => "pre-mismatch"
   | .writeErr => "write-error"
+  | .checkFail => "check-fail"
 
 /-- Following `pre` from the group that `gcurrent` names never ends. The real start-up then
     never returns (`refreshCache` has no cycle guard); only reachable after a crash in the middle
@@ -116,7 +150,7 @@ def afterRun (s : DState) (pre : String) : Run → DState × String
 def mutate (s : DState) (c : Chain) (ws : List String) (budget : Option Nat) : Option (DState × String) :=
   match ws, budget with
   | ["add", a, b, p, cr], none => do
-    let g ← parseGroup4 a b p cr
+    let g ← parseAdd s.dur a b p cr
     -- sqlite rejects a uint64 GroupHeight with the high bit set: `mysql.InsertGroup` fails and
     -- `save` panics after its four writes. Only reachable after `count` has underflowed
     -- (remove at count = 0, itself only reachable from a crash-desynchronised store): not modelled.
@@ -125,8 +159,17 @@ def mutate (s : DState) (c : Chain) (ws : List String) (budget : Option Nat) : O
     else
     let (r, c') := addGroup c g
     pure ({ s with boot := some (.alive c') }, addResStr r ++ " " ++ status c')
+  | ["add", a, b, p, cr, m], none => do
+    let g0 ← parseAdd s.dur a b p cr
+    let ms ← parseMembers m
+    let g : Group := { g0 with members := ms }
+    if addCheck c g = .ok ∧ c.count ≥ 9223372036854775808 then
+      pure ({ s with boot := none }, "unmodelled")
+    else
+    let (r, c') := addGroup c g
+    pure ({ s with boot := some (.alive c') }, addResStr r ++ " " ++ status c')
   | ["add", a, b, p, cr], some k => do
-    let g ← parseGroup4 a b p cr
+    let g ← parseAdd s.dur a b p cr
     if addCheck c g = .ok ∧ c.count ≥ 9223372036854775808 then
       pure ({ s with boot := none }, "unmodelled")
     else
@@ -135,7 +178,7 @@ def mutate (s : DState) (c : Chain) (ws : List String) (budget : Option Nat) : O
   | ["cadd", a, b, p, cr], none => do
     -- one of two concurrent AddGroup calls, reported by the harness in the sequential order that
     -- explains their results: replayed here one after the other (answer = result only)
-    let g ← parseGroup4 a b p cr
+    let g ← parseAdd s.dur a b p cr
     if addCheck c g = .ok ∧ c.count ≥ 9223372036854775808 then
       pure ({ s with boot := none }, "unmodelled")
     else
@@ -182,6 +225,17 @@ def query (c : Chain) : List String → Option String
     let x ← parseNat? x
     pure (if (iterList c).length > c.disk.length then "LOOP" else ogstr (firstBelow c x))
   | ["top"] => some (toString (topHeight c))
+  | ["avail", h] => do
+    let h ← parseNat? h
+    pure (if (iterList c).length > c.disk.length then "LOOP"
+          else listStr ((availableAt c h).map (fun og => match og with | some g => toHex g.id | none => "nil")))
+  | ["availm", h, m] => do
+    let h ← parseNat? h
+    let m ← ofHex? m
+    pure (if (iterList c).length > c.disk.length then "LOOP" else
+          match availableByMiner c h m with
+          | some l => listStr (l.map (fun g => toHex g.id))
+          | none => "PANIC")
   | ["dump"] => some (dumpStr c.disk)
   | ["mirror"] => some (mirrorStr c.mirror)
   | _ => none
@@ -189,8 +243,8 @@ def query (c : Chain) : List String → Option String
 /-- `bootcrash <k1> <k2|-> <genesis…>`: wipe; first start-up cut after `k1` writes; if the store
     then still has no last-group pointer and `k2` is given, the next start-up (genesis branch
     again) is cut after `k2` writes; finally a start-up that runs to the end. -/
-def bootCrash (gs : List Group) (k1 : Nat) (k2 : Option Nat) : DState × String :=
-  let s0 : DState := { boot := none, genesis := gs }
+def bootCrash (s : DState) (gs : List Group) (k1 : Nat) (k2 : Option Nat) : DState × String :=
+  let s0 : DState := { s with boot := none, genesis := gs }
   match firstBootB [] [] gs k1 with
   | none => (s0, "unmodelled")
   | some (.done c _) => afterRun s0 "done" (.done c 0)
@@ -216,10 +270,14 @@ def step (s : DState) (line : String) : DState × String :=
     | none => (s, "bad-op")
     | some gs =>
       let b := restart [] [] gs
-      ({ boot := b, genesis := gs }, bootStr b)
+      ({ s with boot := b, genesis := gs }, bootStr b)
+  | ["config", "duration", n] =>
+    match parseNat? n with
+    | some n => ({ s with dur := n }, "ok")
+    | none => (s, "bad-op")
   | "bootcrash" :: k1 :: k2 :: toks =>
     match parseNat? k1, (if k2 == "-" then some none else (parseNat? k2).map some), parseAll parseGenesis toks with
-    | some k1, some k2, some (g :: gs) => bootCrash (g :: gs) k1 k2
+    | some k1, some k2, some (g :: gs) => bootCrash s (g :: gs) k1 k2
     | _, _, _ => (s, "bad-op")
   | ws =>
     match s.boot with
@@ -234,6 +292,21 @@ def step (s : DState) (line : String) : DState × String :=
         if preCycle c.disk then ({ s with boot := none }, "unmodelled") else
         let b := restart c.disk c.mirror s.genesis
         ({ s with boot := b }, bootStr b)
+      | ["addnil"] => (s, "nil-group " ++ status c)
+      | ["rmnil"] => (s, "true " ++ status c)
+      | ["addrej", a, b, p, cr] =>
+        match parseAdd s.dur a b p cr with
+        | none => (s, "bad-op")
+        | some g => let r := addGroupRefused c g; (s, addResStr r.1 ++ " " ++ status r.2)
+      | "switch" :: h :: toks =>
+        -- the fork switch: removeFromCommonAncestor(group at height h), then AddGroup of the fork's groups
+        match parseNat? h, parseAll parseForkGroup toks with
+        | some h, some gs =>
+          if c.count ≥ 4294967296 ∨ (getGroupByHeight c.disk h).isNone ∨ h ≥ c.count then (s, "unmodelled") else
+          let r := forkSwitch s.dur c h gs
+          if r.1.count ≥ 9223372036854775808 then ({ s with boot := none }, "unmodelled") else
+          ({ s with boot := some (.alive r.1) }, toString r.2 ++ " " ++ status r.1)
+        | _, _ => (s, "bad-op")
       | ["forkput", k] =>
         -- a write of the group FORK database (store prefix "groupFork") seen from the chain's store
         -- (prefix "group"): the raw key "Fork" ++ k
@@ -242,11 +315,41 @@ def step (s : DState) (line : String) : DState × String :=
         | some kb =>
           let c' := { c with disk := sput c.disk ([0x46, 0x6f, 0x72, 0x6b] ++ kb) (.ref [1]) }
           ({ s with boot := some (.alive c') }, "ok")
+      | "sqlfault" :: kind :: idh :: rest =>
+        -- the sqlite statement for group <id> (insert / delete) fails while the op runs; the real code
+        -- panics there (process death), so a start-up follows
+        match (if kind == "ins" then some SqlKind.ins else if kind == "del" then some SqlKind.del else none), ofHex? idh with
+        | some k, some fid =>
+          let f : SqlFault := { kind := k, id := fid }
+          let fin (pre : String) (c' : Chain) (panicked : Bool) : DState × String :=
+            if preCycle c'.disk then ({ s with boot := none }, "unmodelled") else
+            let b := restart c'.disk c'.mirror s.genesis
+            ({ s with boot := b }, (if panicked then "panic" else pre) ++ " / " ++ bootStr b)
+          match rest with
+          | ["add", a, b, p, cr] =>
+            match parseAdd s.dur a b p cr with
+            | none => (s, "bad-op")
+            | some g =>
+              if addCheck c g = .ok ∧ c.count ≥ 9223372036854775808 then ({ s with boot := none }, "unmodelled") else
+              let r := addGroupS c g f
+              fin (addResStr r.1) r.2.1 r.2.2
+          | ["rmlast"] =>
+            let r := removeS c c.last f
+            fin (toString r.1) r.2.1 r.2.2
+          | ["rmto", h] =>
+            match parseNat? h with
+            | none => (s, "bad-op")
+            | some h =>
+              if c.count ≥ 4294967296 then (s, "unmodelled") else
+              let r := rmToS c h f
+              fin "done" r.1 r.2
+          | _ => (s, "bad-op")
+        | _, _ => (s, "bad-op")
       | "fault" :: j :: rest =>
         -- the j-th physical write (from 0) of the op returns an error and is not performed
         match parseNat? j, rest with
         | some j, ["add", a, b, p, cr] =>
-          match parseGroup4 a b p cr with
+          match parseAdd s.dur a b p cr with
           | none => (s, "bad-op")
           | some g =>
             if addCheck c g = .ok ∧ c.count ≥ 9223372036854775808 then ({ s with boot := none }, "unmodelled") else
